@@ -146,6 +146,21 @@ func runC01(c *rt.Ctx) {
 		c.State(int64(st))
 		c.Trans(int64(tr))
 	}
+	// the same search with every command on a connection of its own (whatever the process keeps
+	// from one connection to the next - pools, tables, anything initialised on first use - is then
+	// between any two commands), on the deployments the real main program builds
+	for i, cfg := range AppCfgs() {
+		if cfg.L1H == "batched" || !c.Mine(500+i) {
+			continue
+		}
+		d := 3
+		if c.Thorough() {
+			d = 5
+		}
+		st, tr, _ := BFS(c, "C01", cfg, stackAlphabet(cfg, false), BFSOpts{MaxDepth: d, MaxValLen: maxLen, Bubble: true, Fresh: true})
+		c.State(int64(st))
+		c.Trans(int64(tr))
+	}
 	c.Set("depth_bound", depth)
 	c.Set("value_len_cap", maxLen)
 
